@@ -174,6 +174,39 @@ example : -- non-vacuity (the former witness input): nothing is forgotten
     r.l.tokens = [3, 8] ∧ r.file = .tokens [3, 8] ∧ commit (some d) r .failBefore = some d := by
   decide
 
+/-- Start-up under a read outage. With a token generator that has a can-join check `autoJoin` first runs
+`waitBeforeJoining`; if the first `k` reads fail (or find no ring, or `CanJoin` refuses) and the next one works — `k`
+below the can-join timeout — it makes exactly `k + 1` attempts and then the join timer does exactly what it does
+without any outage: the entry is published in the target state with `numTokens` strictly sorted tokens, which are also
+the remembered ones. (Without a can-join check the store is never read. Together with `restart_reaches_active` /
+`PC08.activation_tokens`: any finite number of failed reads followed by working reads ends ACTIVE with NumTokens tokens.) -/
+theorem join_survives_read_outage (c : Cfg) (l : Local) (file : File) (store : Option Desc) (now : Int) (gen : Gen)
+    (canJoin : Bool) (budget k : Nat) (reads : Nat → Read)
+    (hk : c.kind = .LC) (hs : l.started = true) (hp : l.state = .PENDING) (hg : GenOK gen)
+    (hnd : (tokensOf (store.getD []) c.id).Nodup) (hle : (tokensOf (store.getD []) c.id).length ≤ c.numTokens)
+    (hkb : k < budget) (hfail : ∀ j, j < k → reads j ≠ .ok) (hok : reads k = .ok) :
+    let r := joinTimerWithReads c l file store now gen canJoin budget reads
+    r.2 = (if canJoin then k + 1 else 0) ∧
+    r.1 = step c l file store .joinTimer now gen .none ∧
+    ∃ d' b, r.1.out = .write d' ∧ Desc.get? d' c.id = some b ∧
+      b.state = (if c.observe then .JOINING else .ACTIVE) ∧ b.tokens.length = c.numTokens ∧
+      b.tokens.Pairwise (· < ·) ∧ r.1.l.tokens = b.tokens := by
+  intro r
+  have hw := PfC09.waitAttempts_outage reads k budget 0 hkb (by simpa using hfail) (by simpa using hok)
+  refine ⟨?_, rfl, ?_⟩
+  · cases canJoin <;> simp [r, joinTimerWithReads, hs, hp, hw]
+  · obtain ⟨d', b, h1, h2, h3, _, h5, h6, h7, _, _⟩ :=
+      PfC08.lc_join_tokens (file := file) (now := now) (fault := .none) hk hs hp hg (by decide) hnd hle
+    exact ⟨d', b, h1, h2, h3, h6, h7, h5⟩
+
+example : -- non-vacuity: two failed reads, then the ring is readable: 3 attempts, ACTIVE with 2 tokens
+    let c : Cfg := { id := "a", numTokens := 2 }
+    let l : Local := { started := true }
+    let r := joinTimerWithReads c l .absent (some [{ id := "a", state := .PENDING }]) 5 (fun _ _ => [3, 8]) true 300
+      (fun j => if j < 2 then .fail else .ok)
+    r.2 = 3 ∧ r.1.out = .write [{ id := "a", ts := 5, state := .ACTIVE, tokens := [3, 8] }] := by
+  decide
+
 /-! ### tokens file -/
 
 /-- `StoreToFile` interrupted after any of its file-system operations (or in the middle of the write): the
